@@ -21,10 +21,11 @@ ASSUME PrintT(<<"CHECKED", ToJson([n |-> NRec])>>)
 ASSUME \A i \in 1..NRec : NoPanic(Rec[i]) \/ Bad(i, "builder panicked")
 ASSUME \A i \in 1..NRec : DefaultMesh(Rec[i]) \/ Bad(i, "accepted default mesh parameters violate the inequalities")
 ASSUME \A i \in 1..NRec : TopicOrder(Rec[i]) \/ Bad(i, "accepted per-topic mesh parameters violate n_low <= n <= n_high")
-ASSUME \A i \in 1..NRec : TopicOutbound(Rec[i]) \/ Bad(i, "accepted per-topic mesh_outbound_min violates the inequalities")
 ASSUME \A i \in 1..NRec : Transmit(Rec[i]) \/ Bad(i, "accepted max_transmit_size below 100")
 ASSUME \A i \in 1..NRec : History(Rec[i]) \/ Bad(i, "accepted history_gossip > history_length")
 ASSUME \A i \in 1..NRec : Heartbeat(Rec[i]) \/ Bad(i, "heartbeat panicked with an accepted config")
+(* last on purpose: vlib reports only the first few BAD lines and this clause has an open known finding *)
+ASSUME \A i \in 1..NRec : TopicOutbound(Rec[i]) \/ Bad(i, "accepted per-topic mesh_outbound_min violates the inequalities")
 Init == x = 0
 Next == FALSE /\ x' = x
 ====
